@@ -85,6 +85,9 @@ def _work(chunk):
                 out['violations'].append((idx, None, res['violation']))
         elif idx < 2:
             out['samples'].append(engine.sample(case))
+        if res.get('violation') and res['violation']['oracle'] in ('stall', 'hang'):
+            # every further run of the chunk is likely to stall as well; hand the finding to the parent now
+            break
     faulthandler.cancel_dump_traceback_later()
     try:
         os.unlink(inflight)
